@@ -228,7 +228,7 @@ pub fn runner_cli(cfg: &spec::Cfg) -> RunnerCli {
         concurrency: cfg.cli_concurrency,
         fail_fast: cfg.cli_ff,
         retry: cfg.cli_retry,
-        retry_after: spec::dur(cfg.cli_retry_after_ms),
+        retry_after: spec::dur(cfg.cli_retry_after_us),
         retry_tag_filter: cfg.cli_filter.as_ref().map(|f| f.parse().expect("tagexpr")),
     }
 }
@@ -246,8 +246,8 @@ pub fn base_runner(cfg: &spec::Cfg) -> runner::Basic<TW> {
     if let Some(n) = cfg.b_retry {
         r = r.retries(n);
     }
-    if let Some(d) = cfg.b_retry_after_ms {
-        r = r.retry_after(Duration::from_millis(d));
+    if let Some(d) = cfg.b_retry_after_us {
+        r = r.retry_after(Duration::from_micros(d));
     }
     if let Some(f) = &cfg.b_filter {
         r = r.retry_filter(f.parse::<gherkin::tagexpr::TagOperation>().expect("tagexpr"));
@@ -748,7 +748,11 @@ pub fn drive(
                 #[cfg(feature = "tracing")]
                 if with_rs(|rs| rs.emit_logs) && out.outside_logs < 6 && (!blocked.is_empty() || parser_waiting) && rng.chance(1, 10) {
                     out.outside_logs += 1;
-                    tracing::info!("OUT:{}", out.outside_logs);
+                    if with_rs(|rs| rs.log_loud) {
+                        tracing::warn!("OUT:{}", out.outside_logs);
+                    } else {
+                        tracing::info!("OUT:{}", out.outside_logs);
+                    }
                     qp.decision.push_str("outside-log");
                     out.sched_hash = mix(out.sched_hash, 0x0D7);
                     with_rs(|rs| rs.q += 1);
